@@ -427,6 +427,35 @@ def run(f, fixture, rep, cfg, tier):
               "Package::parse stores %s: the payload kept is not simply the unbounded rest of the input" % ({k: v[:120] for k, v in agp[0].items()} if agp else None), pp.span)
     rep.check(len(rte) == 1, "R1", "Package|parse-rest", "the payload is everything after the metadata (read_to_end)", "Package::parse no longer reads the rest with read_to_end", pp.span)
 
+    # ---- R1 (must-pass-through) every successful write emitted every part: no Ok(()) is reachable around the write of a
+    # segment (an early `return Ok(())` for "empty" values drops bytes that size(), the offsets and the intro still count)
+    from pathsens import ps_reach
+    emitters = [("header::Header::<T>::write", r"(IndexHeader::write|Write::write_all)$"),
+                ("package::PackageMetadata::write", r"(Lead::write|write_signature|Header::<.*>::write)$"),
+                ("package::Package::write", r"(PackageMetadata::write|Write::write_all)$"),
+                ("lead::Lead::write", r"Write::write_all$"),
+                ("header::IndexHeader::write", r"Write::write_all$"),
+                ("header::IndexEntry::<T>::write_index", r"Write::write_all$")]
+    n_steps = 0
+    for path, rx in emitters:
+        bs = [b for b in f.find(path) if b.kind != "closure"]
+        if not rep.anchor(len(bs) == 1, "R1", "writer %s" % path):
+            continue
+        wb = bs[0]
+        oks = set(ok_assign_blocks(wb))
+        # `_0 = call(..)` tail calls count as success returns as well
+        tails = {bb for (bb, idx, kind, payload, lhs_proj) in wb.defs(0) if kind == "call" and wb.call_at(bb).decl != "std::ops::FromResidual::from_residual"}
+        steps = [c for c in wb.calls() if re.search(rx, c.decl) and not any(c.bb in blks for (_h, blks) in wb.loops())]
+        for i, c in enumerate(sorted(steps, key=lambda c: c.bb)):
+            n_steps += 1
+            if c.bb in tails:
+                continue        # the step is itself the returned result
+            around = ps_reach(wb, 0, blocked_blocks={c.bb}) if c.bb != 0 else set()     # a step in the entry block is on every path
+            rep.check(not (around & (oks | tails)), "R1", "%s|always-emits|%s|#%d" % (fmt_key(wb.path), c.decl.rsplit("::", 1)[-1], i),
+                      "%s cannot succeed without %s" % (fmt_key(wb.path), c.decl.rsplit("::", 1)[-1]),
+                      "%s can return Ok(()) without having executed its %s step: a segment is missing from the output while its size is still counted" % (wb.path, c.decl), c.loc())
+    rep.floor("R1", "emission steps checked for must-pass-through", n_steps, 20)
+
     # ---- R3 ---------------------------------------------------------------------------------------
     wi = f.one("header::IndexEntry::<T>::write_index")
     et = [t for (_w, t, _c) in emission(wi, f)]
